@@ -83,3 +83,139 @@ Example C17_example :
   let b := q_mkObj [q_mkBasis 2 [0; 0; 1; 2; 2]%Q 0; bu] [[0;2]; [1;3]; [0;1]; [1;1]; [0;0]; [1;0]]%Q 2 false in
   q_orient_compute (1#100000000) 0 (1#10000000000) a b = Some (mkOrient [1; 0] [false; true]).
 Proof. vm_compute. reflexivity. Qed.
+
+(* ------------------------------------------------------------------------------------------------------
+   Added in build session 4 (statements re-stated from the proof files by harness tooling; each is closed by
+   exact). *)
+From SplipyModel Require Import Model.Catalogue Proofs.CatalogueProofs.
+Theorem C17_add_idempotent :
+  forall (c : catalogue) (p : patch), valid_patch p -> cat_add (cat_add c p) p = cat_add c p.
+Proof. exact @add_idempotent. Qed.
+Print Assumptions C17_add_idempotent.
+
+Theorem C17_lookup_after_add :
+  forall (c : catalogue) (p : patch) (s : list (option bool)),
+         valid_patch p ->
+         length s = p_dim p ->
+         exists n : node,
+           cat_lookup (cat_add c p) {| p_dim := nfree s; p_corners := sec s (p_corners p) |} = Some n /\
+           n_key n = pkey (nfree s) (sec s (p_corners p)) /\ In n (cat_add c p).
+Proof. exact @lookup_after_add. Qed.
+Print Assumptions C17_lookup_after_add.
+
+Theorem C17_nodes_are_cells :
+  forall ps : list patch,
+         Forall valid_patch ps ->
+         let c := cat_add_all cat_empty ps in
+         NoDup (cat_keys c) /\
+         (forall k : key, In k (cat_keys c) <-> In k (flat_map all_subkeys ps)) /\
+         (forall d : nat,
+          length (cat_nodes c d) =
+          length (nodup key_dec (filter (fun k : key => fst k =? d) (flat_map all_subkeys ps)))).
+Proof. exact @nodes_are_cells. Qed.
+Print Assumptions C17_nodes_are_cells.
+
+Theorem C17_order_independent :
+  forall ps ps' : list patch,
+         Permutation.Permutation ps ps' ->
+         Forall valid_patch ps ->
+         let c := cat_add_all cat_empty ps in
+         let c' := cat_add_all cat_empty ps' in
+         (forall k : key, In k (cat_keys c) <-> In k (cat_keys c')) /\
+         Permutation.Permutation (cat_keys c) (cat_keys c') /\
+         (forall d : nat, length (cat_nodes c d) = length (cat_nodes c' d)).
+Proof. exact @order_independent. Qed.
+Print Assumptions C17_order_independent.
+
+Theorem C17_orientation_independent :
+  forall (c : catalogue) (p : patch) (o : orient),
+         valid_patch p ->
+         signed_perm (p_dim p) o ->
+         (forall k : key, In k (all_subkeys (preorient o p)) <-> In k (all_subkeys p)) /\
+         (forall k : key, In k (cat_keys (cat_add c (preorient o p))) <-> In k (cat_keys (cat_add c p))).
+Proof. exact @orientation_independent. Qed.
+Print Assumptions C17_orientation_independent.
+
+Theorem C17_reoriented_copy_known :
+  forall (c : catalogue) (p : patch) (o : orient),
+         valid_patch p ->
+         signed_perm (p_dim p) o ->
+         (forall k : key, is_sub (p_dim p) (p_corners p) k -> In k (cat_keys c)) ->
+         cat_add c (preorient o p) = c /\
+         (exists n : node,
+            cat_lookup c (preorient o p) = Some n /\ cat_lookup c p = Some n /\ n_key n = patch_key p /\ In n c).
+Proof. exact @reoriented_copy_known. Qed.
+Print Assumptions C17_reoriented_copy_known.
+
+Theorem C17_order_orientation_independent :
+  forall ps qs ps' : list patch,
+         Forall valid_patch ps ->
+         Forall2 reoriented ps qs ->
+         Permutation.Permutation qs ps' ->
+         let c := cat_add_all cat_empty ps in
+         let c' := cat_add_all cat_empty ps' in
+         (forall k : key, In k (cat_keys c) <-> In k (cat_keys c')) /\
+         Permutation.Permutation (cat_keys c) (cat_keys c') /\
+         (forall d : nat, length (cat_nodes c d) = length (cat_nodes c' d)).
+Proof. exact @order_orientation_independent. Qed.
+Print Assumptions C17_order_orientation_independent.
+
+Theorem C17_graph_invariants :
+  forall ps : list patch,
+         Forall valid_patch ps -> let c := cat_add_all cat_empty ps in graph_ok c /\ prov (from_patches ps) c.
+Proof. exact @graph_invariants. Qed.
+Print Assumptions C17_graph_invariants.
+
+Theorem C17_higher_neighbours :
+  forall (ps : list patch) (D : nat),
+         Forall valid_patch ps ->
+         (forall p : patch, In p ps -> p_dim p = S D) ->
+         same_faces ps ->
+         forall n : node,
+         In n (cat_add_all cat_empty ps) ->
+         fst (n_key n) = D ->
+         forall h : key,
+         In h (n_higher n) <-> (exists p : patch, In p ps /\ h = patch_key p /\ In (n_key n) (face_keys p)).
+Proof. exact @higher_neighbours. Qed.
+Print Assumptions C17_higher_neighbours.
+
+Theorem C17_boundary_spec :
+  forall (ps : list patch) (D : nat),
+         Forall valid_patch ps ->
+         (forall p : patch, In p ps -> p_dim p = S D) ->
+         same_faces ps ->
+         (forall p : patch, In p ps -> NoDup (face_keys p)) ->
+         forall n : node,
+         In n (cat_boundary (cat_add_all cat_empty ps) (S D)) <->
+         In n (cat_add_all cat_empty ps) /\
+         fst (n_key n) = D /\
+         (exists p : patch,
+            In p ps /\
+            In (n_key n) (face_keys p) /\
+            (forall q : patch, In q ps -> In (n_key n) (face_keys q) -> patch_key q = patch_key p)).
+Proof. exact @boundary_spec. Qed.
+Print Assumptions C17_boundary_spec.
+
+Theorem C17_lattice2_counts :
+  forall nx ny : nat,
+         1 <= nx ->
+         1 <= ny ->
+         let c := cat_add_all cat_empty (lattice2 nx ny) in
+         length (cat_nodes c 0) = (nx + 1) * (ny + 1) /\
+         length (cat_nodes c 1) = nx * (ny + 1) + (nx + 1) * ny /\ length (cat_nodes c 2) = nx * ny.
+Proof. exact @lattice2_counts. Qed.
+Print Assumptions C17_lattice2_counts.
+
+Theorem C17_lattice3_counts :
+  forall nx ny nz : nat,
+         1 <= nx ->
+         1 <= ny ->
+         1 <= nz ->
+         let c := cat_add_all cat_empty (lattice3 nx ny nz) in
+         length (cat_nodes c 0) = (nx + 1) * (ny + 1) * (nz + 1) /\
+         length (cat_nodes c 1) = (nx + 1) * (ny + 1) * nz + (nx + 1) * ny * (nz + 1) + nx * (ny + 1) * (nz + 1) /\
+         length (cat_nodes c 2) = (nx + 1) * ny * nz + nx * (ny + 1) * nz + nx * ny * (nz + 1) /\
+         length (cat_nodes c 3) = nx * ny * nz.
+Proof. exact @lattice3_counts. Qed.
+Print Assumptions C17_lattice3_counts.
+
